@@ -349,14 +349,15 @@ def random_walk(cfg, monitor_classes, alphabet, rng, length, multi=False, stopst
 
 
 def bfs_shard(cfg, monitor_classes, alphabet, depth0, depth, part, nparts, multi=False, stopstart=True,
-              on_state=None, max_forks=5, time_budget=None, on_run=None, rest=()):
+              on_state=None, max_forks=5, time_budget=None, on_run=None, rest=(), start=None):
     """Deterministic BFS to depth0 in every shard, then this shard continues its slice of the frontier.
     Returns the Explorer (seen states, executed sequences, violations)."""
     import time as _t
     t0 = _t.monotonic()
     ex = Explorer(cfg, monitor_classes, alphabet, multi=multi, stopstart=stopstart, max_forks=max_forks,
                   on_state=on_state if part == 0 else None, on_run=on_run if part == 0 else None, rest=rest)
-    frontier = [()]
+    # `start`: event sequences to continue from instead of boot (prefix-seeded exploration; depth counts the added events)
+    frontier = [tuple(x) for x in start] if start else [()]
     d = 0
     ex.depth_reached = 0
     ex.truncated = False
